@@ -443,7 +443,8 @@ def shared_run(seed, tier, log=print):
         for k, (prog, text, exp) in enumerate(plan_gen.directed_varfields()):
             cases.append(("varfield-%d" % k, prog, text, {"directed_varfield": 1}, "varfield"))
             case_expect["varfield-%d" % k] = exp
-        for fam, gen in (("shadow", plan_gen.directed_shadowing), ("smartboth", plan_gen.directed_smart_both), ("fwd", plan_gen.directed_forward), ("samename", plan_gen.directed_same_name)):
+        for fam, gen in (("shadow", plan_gen.directed_shadowing), ("smartboth", plan_gen.directed_smart_both), ("fwd", plan_gen.directed_forward), ("samename", plan_gen.directed_same_name),
+                         ("reopen", plan_gen.directed_reopen)):
             for k, (prog, text, exp) in enumerate(gen()):
                 cases.append(("%s-%d" % (fam, k), prog, text, {"directed_" + fam: 1}, fam))
                 case_expect["%s-%d" % (fam, k)] = exp
@@ -477,12 +478,15 @@ def shared_run(seed, tier, log=print):
                     rec["n_atoms"] = sum(1 for e in dump["envs"] if e["kind"] == "atom")
                     rec["n_active"] = sum(1 for e in dump["envs"] if e["kind"] == "atom" and e["sigma"] == "T")
                     rec["n_unified"] = sum(1 for e in dump["envs"] if e["kind"] == "atom" and e["sigma"] == "F")
+                    # atoms whose flaw is active (phi true: the atom is in the plan) but whose sigma is undefined: neither activated nor unified
+                    rec["undefined_in_plan"] = [e["id"] for e in dump["envs"] if e["kind"] == "atom" and e.get("phi") == "T" and e["sigma"] == "U"]
+                    rec["n_flaws_left"] = dump.get("n_flaws_left", 0)      # solver::solve returns true only with an empty set of open flaws
                     rec["n_objs"] = sum(1 for e in dump["envs"] if e["kind"] == "obj")
                     rec["n_edges"] = len(v.get("edges", []))
                     rec["n_disj_chosen"] = sum(1 for r in dump["recs"] if r["kind"] == 1 and r["ni"] == "T")
                     rec["n_interval_active"] = sum(1 for e in dump["envs"] if e["kind"] == "atom" and e["sigma"] == "T" and "start" in e["vars"])
                     rec["n_vars_multi"] = sum(1 for e in dump["envs"] if e["kind"] == "var" and len(e.get("dom0", [])) > 1)
-                    ok_all = v.get("solution") is True and not (v.get("derived") or {}).get("mismatches") and not v.get("factrules_mismatch") and not v.get("factrules_missing") and not (v.get("positions_model") or {}).get("violations")
+                    ok_all = v.get("solution") is True and not rec["n_flaws_left"] and not (v.get("derived") or {}).get("mismatches") and not v.get("factrules_mismatch") and not v.get("factrules_missing") and not (v.get("positions_model") or {}).get("violations")
                     if not ok_all or fam == "corpus":
                         rec["text"] = text
                         rec["program"] = prog
@@ -530,7 +534,7 @@ def excerpt(dump, v, info):
         out["core"][n] = show(val)
     for e in dump["envs"]:
         if e["kind"] == "atom":
-            out["atoms"].append({"id": e["id"], "pred": e["type"], "sigma": e["sigma"], "fact": e.get("is_fact"),
+            out["atoms"].append({"id": e["id"], "pred": e["type"], "sigma": e["sigma"], "phi": e.get("phi"), "fact": e.get("is_fact"),
                                  "vars": {n: show(val) for n, val in e["vars"].items()}})
         elif e["kind"] in ("obj", "var"):
             out.setdefault("objects", []).append({"id": e["id"], "type": e.get("type"), "seq": e.get("seq"), "dom0": e.get("dom0"),
